@@ -215,6 +215,9 @@ def modes(ctx, case):
     else:
         words = [symx_tok('prog'), '-g', symx_tok('w')]
 
+    # a breakpoint matcher (-b): the `Stopped at` notice is part of what is displayed, in every mode
+    stop_text = ctx.choose([None, '.get_registry', '*'], 'breakpoint') if part == 'child' else [None, None, '.sync', '*'][(n + first) % 4]
+    stop_matcher = matcher.never if stop_text is None else matcher.parse(stop_text).simplify()
     via_cli = ctx.choose([False, True], 'via_command_line') if part == 'child' else False
     if via_cli:
         libdir = None       # the default library directory does not exist in the sandbox
@@ -229,14 +232,14 @@ def modes(ctx, case):
             try:
                 with contextlib.redirect_stdout(io.StringIO()), contextlib.redirect_stderr(io.StringIO()):
                     try:
-                        a = arguments.parse_args(['main.py'] + (['--supress'] if supress else []) + [ctx.choose(['-r', '--run', '-Cr'], 'marker')] + list(words))
+                        a = arguments.parse_args(['main.py'] + (['--supress'] if supress else []) + (['-b', stop_text] if stop_text else []) + [ctx.choose(['-r', '--run', '-Cr'], 'marker')] + list(words))
                     except SystemExit:
                         # usage error / help: the program's own words were taken for ours
                         a = Arguments(False, False, True, None, '', matcher.always, matcher.never, None, ['main.py'], [])
             finally:
                 arguments.check_gdb = saved_cg
             return a
-        return Arguments(False, False, not supress, mode, path, matcher.always, matcher.never, libdir, ['main.py'], list(words))
+        return Arguments(False, False, not supress, mode, path, matcher.always, stop_matcher, libdir, ['main.py'], list(words))
 
     saved = (main.protocol.load_all, runner.subprocess, runner.os, runner.threading, main.__dict__.get('open'), main.sys)
     main.protocol.load_all = lambda out: None
@@ -415,6 +418,11 @@ def modes(ctx, case):
     ctx.check('-r / --run selects run mode whatever the program\'s own words look like', r_info.get('mode') == Mode.RUN)
     if r_info.get('mode') != Mode.RUN:
         return
+    # pipe mode announces once, on the error stream, that it cannot pause at a breakpoint (there is no prompt): a start-up notice about -b, not part
+    # of what is displayed for the stream
+    p_err = [e for e in p_err if not (stop_text is not None and 'Ignoring stop matcher' in e)]
+    if p_out != f_out or p_err != f_err:
+        ctx.note('file', (f_out, f_err)); ctx.note('pipe', (p_out, p_err))
     ctx.check('pipe mode shows exactly what file mode shows', p_out == f_out and [e for e in p_err] == [e for e in f_err])
     ctx.check('run mode shows exactly what file mode shows (every chunking, every schedule)', r_out == f_out and r_err == f_err)
     calls, st = r_info['calls'], r_info['st']
